@@ -11,7 +11,9 @@ EXPLANATION = (
     "assignments come before the loop variables; (STORE) `set` goes to the innermost loop frame when there is one and to the render-wide "
     "map otherwise, `set_global` always to the render-wide map, and compiler and VM agree on which opcode means which; (ITER) every "
     "advance to a further element clears the per-iteration assignments, and the loop counters are updated by the expressions the "
-    "documentation gives (index = index0 + 1, first = false after the first, last = (index == length)); (LOOPVAR) the parser's "
+    "documentation gives (index = index0 + 1, first = false after the first, last = (index == length)), every answer of the loop iterator's "
+    "size_hint is an exact `(n, Some(n))` (ForLoop::new reads it as the length) and a string's n counts characters / graphemes; (STATE) the "
+    "render-time State consists of the reviewed fields only (no place for a memo); (LOOPVAR) the parser's "
     "`loop.X` -> internal name table and ForLoop::get's internal name -> counter table agree and each name reads the counter of "
     "that name; (INCL) an include gets a fresh State whose only link to the includer is a shared (`&`) reference to a State type "
     "without interior mutability, so nothing the included template assigns can reach the includer, and the include writes into the "
@@ -33,8 +35,10 @@ def run(ctx, rep):
         check_scope(crate, rep, cfg)
         check_store(crate, rep, cfg)
         check_iter(crate, rep, cfg)
+        check_exact_len(crate, rep, cfg)
         check_loopvar(crate, rep, cfg)
         check_incl(crate, rep, cfg)
+        check_state_fields(crate, rep, cfg)
         check_jump(crate, rep, cfg)
 
 
@@ -527,6 +531,64 @@ def check_iter(crate, rep, cfg):
             + ("" if ok else " — VIOLATED"))
 
 
+def check_exact_len(crate, rep, cfg):
+    """C03.ITER — loop.length / loop.last rest on ForLoop::new reading the iterator's size_hint().1 as THE length: every answer of
+    ForLoopIterator::size_hint (and of its private helper) is an exact pair `(n, Some(n))` with one and the same n, or is delegated to an
+    exact std iterator (map / vec IntoIter); for strings n counts characters (or graphemes), not bytes."""
+    sh = crate.one("<vm::for_loop::ForLoopIterator as std::iter::Iterator>::size_hint")
+    rep.analysed(sh)
+    n = 0
+
+    def exact_pairs(b):
+        nonlocal n
+        tr = Tracer(b)
+        out = []
+        for bb, idx, st in b.stmts():
+            if idx != "t" and st.get("k") == "assign" and st["pl"]["l"] == 0 and not st["pl"]["p"] and st["rv"]["k"] == "agg" and st["rv"].get("ak") == "tuple":
+                n += 1
+                lo = {(l.kind, l.detail, tuple(p for p in l.projs if p.startswith((".", "as:")))) for l in tr.operand(st["rv"]["ops"][0])}
+                hi = {(l.kind, l.detail, tuple(p for p in l.projs if p.startswith((".", "as:")))) for l in through(tr, tr.operand(st["rv"]["ops"][1]))}
+                out.append((bb, idx, bool(lo) and lo == hi))
+        return out
+    bad = [b_ for b_ in exact_pairs(sh) if not b_[2]]
+    deleg = []
+    for bb, t in sh.calls():
+        if t["dest"]["l"] == 0:
+            cd = callee_def(t)
+            h = crate.bodies.get(cd)
+            if h is not None:
+                bad += [x for x in exact_pairs(h) if not x[2]]
+                deleg.append(cd.rsplit("::", 1)[-1])
+            elif cd.endswith("Iterator::size_hint") and any(x in (t["atys"][0] if t["atys"] else "") for x in ("IntoIter", "btree_map", "hash_map", "indexmap", "vec::")):
+                deleg.append("std:" + (t["atys"][0] if t["atys"] else "")[:40])
+            else:
+                bad.append((bb, "t", False))
+    rep.add("C03.ITER", "C03.ITER:size_hint:exact", not bad, sh.where(bad[0][0]) if bad else sh.where(0), "every answer of ForLoopIterator::size_hint is `(n, Some(n))` with the same n "
+            "(%d pairs) or delegated to an exact std iterator / the private helper %s: ForLoop::new may read it as the length" % (n, sorted(set(deleg)))
+            + ("" if not bad else " — VIOLATED: lower and upper bound differ: loop.length / loop.last are wrong"))
+    # strings: the count is a count of characters / graphemes
+    cs = crate.one("vm::for_loop::ForLoopIterator::create_string_iterator")
+    rep.analysed(cs)
+    ctr = Tracer(cs)
+    ok = False
+    shown = "no character count found"
+    for bb, idx, st in find_aggs(cs, "vm::for_loop::ForLoopIterator"):
+        v = st["rv"]["variant"]
+        adt = crate.adts["vm::for_loop::ForLoopIterator"]
+        byname = dict(zip([f["n"] for f in adt.fields(v)], st["rv"]["ops"]))
+        if "remaining" in byname:
+            ls = ctr.operand(byname["remaining"])
+            ok = bool(ls) and all(l.kind == "call" and l.detail[0].endswith("Iterator::count") and "Chars" in (cs.term(l.detail[2])["atys"][0] if cs.term(l.detail[2])["atys"] else "")
+                                  for l in ls)
+            shown = "String.remaining = chars().count()"
+        elif "ranges" in byname:
+            ls = ctr.operand(byname["ranges"])
+            ok = bool(ls) and all(l.kind == "call" and l.detail[0].endswith("Iterator::collect") for l in ls) and \
+                any("grapheme_indices" in callee_def(t) for b2, t in cs.calls())
+            shown = "Graphemes.ranges = grapheme_indices(..).collect() (one range per grapheme)"
+    rep.add("C03.ITER", "C03.ITER:string-length-in-chars", ok, cs.where(0), "the length of a string loop counts characters / graphemes: %s" % shown + ("" if ok else " — VIOLATED"))
+
+
 # --------------------------------------------------------------------------------------------------------------- LOOPVAR
 
 LOOP_ATTRS = ("index", "index0", "first", "last", "length")
@@ -583,6 +645,28 @@ def check_loopvar(crate, rep, cfg):
 
 
 # --------------------------------------------------------------------------------------------------------------- INCL
+
+STATE_FIELDS = {
+    # field of vm::state::State -> what it holds (the render-time mutable state; a new field is new hidden state and must be reviewed)
+    "stack": "operand stack of the VM", "chunk": "chunk being executed", "for_loops": "active loop frames (innermost last)",
+    "set_variables": "render-wide assignments", "context": "the caller's context (shared ref)", "global_context": "engine globals (root state only)",
+    "capture_buffers": "open capture buffers (innermost last)", "escape_buffer": "scratch for escaping, cleared before each use",
+    "include_parent": "the includer's state (shared ref)", "capture_block": "block requested by render_block", "block_buffer": "text of that block",
+    "blocks": "active block stack (name, lineage, level)", "current_block_name": "innermost active block", "filters": "registered filters (shared ref)",
+}
+
+
+def check_state_fields(crate, rep, cfg):
+    adt = crate.adts.get(STATE)
+    if adt is None:
+        raise AnchorMissing("struct vm::state::State")
+    have = {f["n"] for f in adt.fields()}
+    extra, gone = sorted(have - set(STATE_FIELDS)), sorted(set(STATE_FIELDS) - have)
+    rep.add("C03.STATE", "C03.STATE:fields-reviewed", not extra, "tera/src/vm/state.rs", "the render-time state consists of the reviewed fields (%d): nothing else can carry a value "
+            "from one instruction, iteration, block or include to another" % len(have) + ("" if not extra else " — VIOLATED: unreviewed field(s) %s: new hidden state (a cache / memo "
+                                                                                     "here makes the output depend on what was rendered before)" % extra))
+    rep.add("C03.STATE", "C03.STATE:fields-present", len(gone) <= 2, "tera/src/vm/state.rs", "reviewed fields still present" + ("" if not gone else " (gone: %s)" % gone))
+
 
 def check_incl(crate, rep, cfg):
     ri = crate.one("vm::interpreter::VirtualMachine::<'tera>::render_include")
